@@ -1,12 +1,16 @@
 // Unit V-filter: the productions of the filter grammar in src/filter.rs (the nom parser-combinator code itself, lifted),
-// against a denotational transcription of RFC 4515 section 3 / RFC 4511 4.5.1: for every input, each production's result
-// is the value of a spec function of the input bytes (consumed length and BER tree), or an error when that is None.
+// against a denotational transcription of RFC 4515 section 3 / RFC 4511 4.5.1 (contracts/V-filter/prelude.rs): for every
+// input, each production's result is the value of a spec function of the input bytes (consumed length and BER tree), or
+// an error when that is None.
 //
-// nom's combinators (tag, opt, preceded, delimited, alt, map, many0, many1) are external functions with relational
-// contracts over the argument parsers' own contracts (`p.ensures`); byte-string literals are rewritten by lifter rule R11
-// into array literals of the same bytes.  The three lexers (attributedescription, attributetype, unescaped) are assumed
-// to be functions of the input that consume a prefix (uninterpreted lx_*); their bounded behaviour is checked by Kani
-// (KX-escape filter leaves).  Serves C08 (and C19 through the Assertion/MatchedValues controls).
+// nom's combinators are external functions with relational contracts over the argument parsers' own contracts
+// (`p.ensures`); byte-string literals are rewritten by lifter rule R11 into array literals of the same bytes.  The three
+// lexers (attributedescription, attributetype, unescaped) are assumed to be functions of the input that consume a prefix
+// (uninterpreted lx_*); their bounded behaviour is checked by Kani (KX-escape filter leaves).
+// The grammar is recursive through `filter`; Verus does not take a function of a recursive cycle as a first-class value,
+// so `filter` is an assumed contract HERE and is proved against the same contract text in unit V-filter-rec (where its
+// callee `filtercomp` is the assumed one).  Partial correctness: termination/stack depth of nested filters is not claimed.
+// Serves C08.
 use vstd::prelude::*;
 use vstd::string::*;
 verus! {
@@ -14,206 +18,19 @@ verus! {
 //@include contracts/shared/lber_types.rs
 //@include contracts/shared/tree_spec.rs
 //@include contracts/shared/std_specs.rs
+//@include contracts/V-filter/prelude.rs
 
-//@const file=src/filter.rs name=AND_FILT
-//@const file=src/filter.rs name=OR_FILT
-//@const file=src/filter.rs name=NOT_FILT
-//@const file=src/filter.rs name=EQ_MATCH
-//@const file=src/filter.rs name=SUBSTR_MATCH
-//@const file=src/filter.rs name=GTE_MATCH
-//@const file=src/filter.rs name=LTE_MATCH
-//@const file=src/filter.rs name=PRES_MATCH
-//@const file=src/filter.rs name=APPROX_MATCH
-//@const file=src/filter.rs name=EXT_MATCH
-//@const file=src/filter.rs name=SUB_INITIAL
-//@const file=src/filter.rs name=SUB_ANY
-//@const file=src/filter.rs name=SUB_FINAL
-
-// ------------------------------------------------------------------ nom, as contracts
-pub struct NomErr { pub k: u8 }
-pub type IResult<I, O> = core::result::Result<(I, O), NomErr>;
-
-pub open spec fn starts_with(i: Seq<u8>, t: Seq<u8>) -> bool { i.len() >= t.len() && i.subrange(0, t.len() as int) == t }
-
-// nom::bytes::complete::tag: the literal, or an error (complete input: never Incomplete)
+// proved in V-filter-rec: C08.parenthesised_filter_denotes_rfc4515
 #[verifier::external_body]
-pub fn tag<'a, const N: usize>(t: &'static [u8; N]) -> (f: impl Fn(&'a [u8]) -> IResult<&'a [u8], &'a [u8]>)
-    ensures
-        forall|i: &'a [u8]| #[trigger] f.requires((i,)),
-        forall|i: &'a [u8], r: IResult<&'a [u8], &'a [u8]>| #[trigger] f.ensures((i,), r) ==>
-            (if starts_with(i@, t@) { r matches Ok(p) && p.0@ == i@.skip(t@.len() as int) && p.1@ == t@ } else { r is Err }),
-{ move |i: &'a [u8]| Err(NomErr { k: 0 }) }
+fn filter<'a>(i: &'a [u8]) -> (r: IResult<&'a [u8], Tag>) ensures denotes(r, i, d_filter(i@)) { unimplemented!() }
 
-// nom::combinator::opt: None (and nothing consumed) when the parser fails
-#[verifier::external_body]
-pub fn opt<'a, O, F: Fn(&'a [u8]) -> IResult<&'a [u8], O>>(p: F) -> (f: impl Fn(&'a [u8]) -> IResult<&'a [u8], Option<O>>)
-    ensures
-        forall|i: &'a [u8]| p.requires((i,)) ==> #[trigger] f.requires((i,)),
-        forall|i: &'a [u8], r: IResult<&'a [u8], Option<O>>| #[trigger] f.ensures((i,), r) ==>
-            exists|pr: IResult<&'a [u8], O>| p.ensures((i,), pr) && (match pr {
-                Ok(q) => r == Ok::<(&'a [u8], Option<O>), NomErr>((q.0, Some(q.1))),
-                Err(_) => r == Ok::<(&'a [u8], Option<O>), NomErr>((i, None)) }),
-{ move |i: &'a [u8]| Err(NomErr { k: 0 }) }
 
-// nom::sequence::preceded: first then second, the second's value
-#[verifier::external_body]
-pub fn preceded<'a, O1, O2, F: Fn(&'a [u8]) -> IResult<&'a [u8], O1>, G: Fn(&'a [u8]) -> IResult<&'a [u8], O2>>(a: F, b: G) -> (f: impl Fn(&'a [u8]) -> IResult<&'a [u8], O2>)
-    ensures
-        forall|i: &'a [u8]| (forall|j: &'a [u8]| a.requires((j,)) && b.requires((j,))) ==> #[trigger] f.requires((i,)),
-        forall|i: &'a [u8], r: IResult<&'a [u8], O2>| #[trigger] f.ensures((i,), r) ==>
-            exists|ra: IResult<&'a [u8], O1>| a.ensures((i,), ra) && (match ra { Ok(q) => b.ensures((q.0,), r), Err(_) => r is Err }),
-{ move |i: &'a [u8]| Err(NomErr { k: 0 }) }
-
-// nom::branch::alt over a tuple of parsers: the first that succeeds
-pub trait AltList<'a, O>: Sized {
-    spec fn alt_req(&self) -> bool;
-    spec fn alt_ens(&self, i: &'a [u8], r: IResult<&'a [u8], O>) -> bool;
-}
-impl<'a, O, A: Fn(&'a [u8]) -> IResult<&'a [u8], O>, B: Fn(&'a [u8]) -> IResult<&'a [u8], O>> AltList<'a, O> for (A, B) {
-    open spec fn alt_req(&self) -> bool { forall|j: &'a [u8]| self.0.requires((j,)) && self.1.requires((j,)) }
-    open spec fn alt_ens(&self, i: &'a [u8], r: IResult<&'a [u8], O>) -> bool {
-        exists|ra: IResult<&'a [u8], O>| self.0.ensures((i,), ra) && (if ra is Ok { r == ra } else { self.1.ensures((i,), r) })
-    }
-}
-impl<'a, O, A: Fn(&'a [u8]) -> IResult<&'a [u8], O>, B: Fn(&'a [u8]) -> IResult<&'a [u8], O>, C: Fn(&'a [u8]) -> IResult<&'a [u8], O>> AltList<'a, O> for (A, B, C) {
-    open spec fn alt_req(&self) -> bool { forall|j: &'a [u8]| self.0.requires((j,)) && self.1.requires((j,)) && self.2.requires((j,)) }
-    open spec fn alt_ens(&self, i: &'a [u8], r: IResult<&'a [u8], O>) -> bool {
-        exists|ra: IResult<&'a [u8], O>| self.0.ensures((i,), ra) && (if ra is Ok { r == ra } else {
-            exists|rb: IResult<&'a [u8], O>| self.1.ensures((i,), rb) && (if rb is Ok { r == rb } else { self.2.ensures((i,), r) }) })
-    }
-}
-#[verifier::external_body]
-pub fn alt<'a, O, L: AltList<'a, O>>(l: L) -> (f: impl Fn(&'a [u8]) -> IResult<&'a [u8], O>)
-    ensures
-        forall|i: &'a [u8]| l.alt_req() ==> #[trigger] f.requires((i,)),
-        forall|i: &'a [u8], r: IResult<&'a [u8], O>| #[trigger] f.ensures((i,), r) ==> l.alt_ens(i, r),
-{ move |i: &'a [u8]| Err(NomErr { k: 0 }) }
-
-// ------------------------------------------------------------------ the lexers (assumed: functions of the input, consume a prefix)
-pub uninterp spec fn lx_attrdesc(i: Seq<u8>) -> Option<int>;          // attributedescription: matched length
-pub uninterp spec fn lx_attrtype(i: Seq<u8>) -> Option<int>;          // attributetype (matching rule id): matched length
-pub uninterp spec fn lx_unescaped(i: Seq<u8>) -> Option<(int, Seq<u8>)>; // assertion value: consumed length, un-escaped bytes
-pub open spec fn recognised<'a>(r: IResult<&'a [u8], &'a [u8]>, i: &'a [u8], d: Option<int>) -> bool {
-    match d { Some(n) => 0 <= n <= i@.len() && (r matches Ok(p) && p.0@ == i@.skip(n) && p.1@ == i@.take(n)), None => r is Err }
-}
-#[verifier::external_body]
-pub fn attributedescription<'a>(i: &'a [u8]) -> (r: IResult<&'a [u8], &'a [u8]>) ensures recognised(r, i, lx_attrdesc(i@)) { unimplemented!() }
-#[verifier::external_body]
-pub fn attributetype<'a>(i: &'a [u8]) -> (r: IResult<&'a [u8], &'a [u8]>) ensures recognised(r, i, lx_attrtype(i@)) { unimplemented!() }
-#[verifier::external_body]
-pub fn unescaped<'a>(i: &'a [u8]) -> (r: IResult<&'a [u8], Vec<u8>>)
-    ensures match lx_unescaped(i@) { Some(d) => 0 <= d.0 <= i@.len() && (r matches Ok(p) && p.0@ == i@.skip(d.0) && p.1@ == d.1), None => r is Err }
-{ unimplemented!() }
-// filtertag on the three operators: K-level fact KX-escape::filtertag_numbers (real code, complete)
-#[verifier::external_body]
-pub fn filtertag(filterop: &[u8]) -> (r: u64)
-    requires filterop@ == seq![0x3eu8, 0x3d] || filterop@ == seq![0x3cu8, 0x3d] || filterop@ == seq![0x7eu8, 0x3d],
-    ensures r == (if filterop@ == seq![0x3eu8, 0x3d] { 5u64 } else if filterop@ == seq![0x3cu8, 0x3d] { 6u64 } else { 8u64 }),
-{ unimplemented!() }
-
-// ------------------------------------------------------------------ RFC 4515 section 3 as a function of the input
-// A production's denotation: None = no match; Some((n, t)) = consumes n bytes and yields the RFC 4511 Filter tree t.
-pub open spec fn denotes<'a>(r: IResult<&'a [u8], Tag>, i: &'a [u8], d: Option<(int, T)>) -> bool {
-    match d { Some(x) => 0 <= x.0 <= i@.len() && (r matches Ok(p) && p.0@ == i@.skip(x.0) && tree(p.1) == x.1), None => r is Err }
-}
-pub open spec fn s_gte() -> Seq<u8> { seq![0x3eu8, 0x3d] }   // ">="
-pub open spec fn s_lte() -> Seq<u8> { seq![0x3cu8, 0x3d] }   // "<="
-pub open spec fn s_apx() -> Seq<u8> { seq![0x7eu8, 0x3d] }   // "~="
-pub open spec fn s_dn() -> Seq<u8> { seq![0x3au8, 0x64, 0x6e] }   // ":dn"
-pub open spec fn s_colon() -> Seq<u8> { seq![0x3au8] }   // ":"
-pub open spec fn s_coleq() -> Seq<u8> { seq![0x3au8, 0x3d] }   // ":="
-
-// simple = attr filtertype assertionvalue, filtertype in { ">=", "<=", "~=" }  (equality is with substring/present below)
-//   -> greaterOrEqual [5] / lessOrEqual [6] / approxMatch [8] AttributeValueAssertion { attributeDesc, assertionValue }
-pub open spec fn d_non_eq(i: Seq<u8>) -> Option<(int, T)> {
-    match lx_attrdesc(i) {
-        None => None,
-        Some(n) => {
-            let j = i.skip(n);
-            let op: Option<u64> = if starts_with(j, s_gte()) { Some(5u64) } else if starts_with(j, s_lte()) { Some(6u64) } else if starts_with(j, s_apx()) { Some(8u64) } else { None };
-            match op {
-                None => None,
-                Some(id) => match lx_unescaped(j.skip(2)) {
-                    None => None,
-                    Some(d) => Some((n + 2 + d.0, t_ctx_c(id, seq![t_os(i.take(n)), t_os(d.1)]))),
-                },
-            }
-        }
-    }
-}
-// extensible = ( attr [dnattrs] [matchingrule] COLON EQUALS assertionvalue ) / ( [dnattrs] matchingrule COLON EQUALS assertionvalue )
-//   -> extensibleMatch [9] MatchingRuleAssertion { matchingRule [1] OPTIONAL, type [2] OPTIONAL, matchValue [3], dnAttributes [4] DEFAULT FALSE }
-pub open spec fn mra(rule: Option<Seq<u8>>, attr: Option<Seq<u8>>, value: Seq<u8>, dn: bool) -> T {
-    t_ctx_c(9, (match rule { Some(s) => seq![t_ctx_p(1, s)], None => Seq::<T>::empty() }) + (match attr { Some(s) => seq![t_ctx_p(2, s)], None => Seq::<T>::empty() })
-        + seq![t_ctx_p(3, value)] + (if dn { seq![T::P(TagClass::Context, 4, seq![0xffu8])] } else { Seq::<T>::empty() }))
-}
-pub open spec fn d_attr_dn_mrule(i: Seq<u8>) -> Option<(int, T)> {
-    match lx_attrdesc(i) {
-        None => None,
-        Some(n) => {
-            let j = i.skip(n);
-            let dn = starts_with(j, s_dn());
-            let n1 = if dn { 3int } else { 0int };
-            let k = j.skip(n1);
-            // [matchingrule] = COLON oid, optional: taken only if both the colon and the rule id are there
-            let rule: Option<int> = if starts_with(k, s_colon()) { lx_attrtype(k.skip(1)) } else { None };
-            let n2 = match rule { Some(m) => 1 + m, None => 0int };
-            let l = k.skip(n2);
-            if !starts_with(l, s_coleq()) { None } else {
-                match lx_unescaped(l.skip(2)) {
-                    None => None,
-                    Some(d) => Some((n + n1 + n2 + 2 + d.0,
-                        mra(match rule { Some(m) => Some(k.subrange(1, 1 + m)), None => None }, Some(i.take(n)), d.1, dn))),
-                }
-            }
-        }
-    }
-}
-pub open spec fn d_dn_mrule(i: Seq<u8>) -> Option<(int, T)> {
-    let dn = starts_with(i, s_dn());
-    let n1 = if dn { 3int } else { 0int };
-    let k = i.skip(n1);
-    if !starts_with(k, s_colon()) { None } else {
-        match lx_attrtype(k.skip(1)) {
-            None => None,
-            Some(m) => {
-                let l = k.skip(1 + m);
-                if !starts_with(l, s_coleq()) { None } else {
-                    match lx_unescaped(l.skip(2)) {
-                        None => None,
-                        Some(d) => Some((n1 + 1 + m + 2 + d.0, mra(Some(k.subrange(1, 1 + m)), None, d.1, dn))),
-                    }
-                }
-            }
-        }
-    }
-}
-pub open spec fn d_extensible(i: Seq<u8>) -> Option<(int, T)> {
-    match d_attr_dn_mrule(i) { Some(x) => Some(x), None => d_dn_mrule(i) }
-}
-
-// extensible_tag: contract proved in unit V-filter-leaf (C08.extensible_match_assembly_rfc4511), restated over views
-#[verifier::external_body]
-pub fn extensible_tag(mrule: Option<&[u8]>, attr: Option<&[u8]>, value: Vec<u8>, dn: bool) -> (r: Tag)
-    ensures tree(r) == mra(match mrule { Some(s) => Some(s@), None => None }, match attr { Some(s) => Some(s@), None => None }, value@, dn)
-{ unimplemented!() }
-
-// the array literals R11 produces are the RFC's literal strings
-pub proof fn lemma_lits()
-    ensures [58u8, 100u8, 110u8]@ == s_dn(), [58u8]@ == s_colon(), [58u8, 61u8]@ == s_coleq(),
-        [62u8, 61u8]@ == s_gte(), [60u8, 61u8]@ == s_lte(), [126u8, 61u8]@ == s_apx(),
-{
-    assert([58u8, 100u8, 110u8]@ =~= s_dn()); assert([58u8]@ =~= s_colon()); assert([58u8, 61u8]@ =~= s_coleq());
-    assert([62u8, 61u8]@ =~= s_gte()); assert([60u8, 61u8]@ =~= s_lte()); assert([126u8, 61u8]@ =~= s_apx());
-}
-
-// ------------------------------------------------------------------ the productions (lifted)
 //@lift name=non_eq file=src/filter.rs fn=non_eq
 //@ rules +R11
-//@ sub "tag(\"~=\")" => "tag(&[126u8, 61u8])"
 //@ sub "fn non_eq(i: &[u8])" => "fn non_eq<'a>(i: &'a [u8])"
 //@ sub "IResult<&[u8], Tag>" => "IResult<&'a [u8], Tag>"
 //@ ret r
+//@ sub "tag(\"~=\")" => "tag(&[126u8, 61u8])"
 //@ insert entry
     let ghost i0 = i@;
     proof { lemma_lits(); }
@@ -299,6 +116,112 @@ pub proof fn lemma_lits()
 //@ ret r
 //@ spec
     ensures denotes(r, i, d_extensible(i@)), //# C08.extensible_item_is_the_ordered_choice_of_its_two_forms
+//@end
+
+// TEMPORARY: eq as an assumed contract
+#[verifier::external_body]
+fn eq<'a>(i: &'a [u8]) -> (r: IResult<&'a [u8], Tag>) ensures denotes(r, i, d_eq(i@)) { unimplemented!() }
+
+//@lift name=item file=src/filter.rs fn=item
+//@ sub "fn item(i: &[u8])" => "fn item<'a>(i: &'a [u8])"
+//@ sub "IResult<&[u8], Tag>" => "IResult<&'a [u8], Tag>"
+//@ ret r
+//@ spec
+    ensures denotes(r, i, d_item(i@)), //# C08.item_is_equality_family_then_ordering_then_extensible
+//@end
+
+//@lift name=and file=src/filter.rs fn=and
+//@ rules +R11
+//@ sub "fn and(i: &[u8])" => "fn and<'a>(i: &'a [u8])"
+//@ sub "IResult<&[u8], Tag>" => "IResult<&'a [u8], Tag>"
+//@ ret r
+//@ insert entry
+    proof { lemma_lits(); }
+//@ closure at="|tagv: Vec<Tag>| -> Tag" params="tagv: Vec<Tag>" ret="(t: Tag)"
+        ensures tree(t) == t_ctx_c(0, trees(tagv@, tagv@.len())) //# C08.and_is_context_0_set_of_the_listed_filters
+//@ tail at="map(preceded("
+    proof {
+        if d_and(i@) is Some { assert(i@.skip(1).skip((d_filterlist(i@.skip(1))->0).0) =~= i@.skip(1 + (d_filterlist(i@.skip(1))->0).0)); }
+    }
+//@ spec
+    ensures denotes(r, i, d_and(i@)), //# C08.and_denotes_rfc4515
+//@end
+
+//@lift name=or file=src/filter.rs fn=or
+//@ rules +R11
+//@ sub "fn or(i: &[u8])" => "fn or<'a>(i: &'a [u8])"
+//@ sub "IResult<&[u8], Tag>" => "IResult<&'a [u8], Tag>"
+//@ ret r
+//@ insert entry
+    proof { lemma_lits(); }
+//@ closure at="|tagv: Vec<Tag>| -> Tag" params="tagv: Vec<Tag>" ret="(t: Tag)"
+        ensures tree(t) == t_ctx_c(1, trees(tagv@, tagv@.len())) //# C08.or_is_context_1_set_of_the_listed_filters
+//@ tail at="map(preceded("
+    proof {
+        if d_or(i@) is Some { assert(i@.skip(1).skip((d_filterlist(i@.skip(1))->0).0) =~= i@.skip(1 + (d_filterlist(i@.skip(1))->0).0)); }
+    }
+//@ spec
+    ensures denotes(r, i, d_or(i@)), //# C08.or_denotes_rfc4515
+//@end
+
+//@lift name=not file=src/filter.rs fn=not
+//@ rules +R11
+//@ sub "fn not(i: &[u8])" => "fn not<'a>(i: &'a [u8])"
+//@ sub "IResult<&[u8], Tag>" => "IResult<&'a [u8], Tag>"
+//@ ret r
+//@ insert entry
+    proof { lemma_lits(); }
+//@ closure at="|tag: Tag| -> Tag" params="tag: Tag" ret="(t: Tag)"
+        ensures tree(t) == t_ctx_c(2, seq![tree(tag)]) //# C08.not_is_context_2_wrapping_the_negated_filter
+//@ tail at="map(preceded("
+    proof {
+        if d_not(i@) is Some { assert(i@.skip(1).skip((d_filter(i@.skip(1))->0).0) =~= i@.skip(1 + (d_filter(i@.skip(1))->0).0)); }
+    }
+//@ spec
+    ensures denotes(r, i, d_not(i@)), //# C08.not_denotes_rfc4515
+//@end
+
+//@lift name=filterlist file=src/filter.rs fn=filterlist
+//@ sub "fn filterlist(i: &[u8])" => "fn filterlist<'a>(i: &'a [u8])"
+//@ sub "IResult<&[u8], Vec<Tag>>" => "IResult<&'a [u8], Vec<Tag>>"
+//@ ret r
+//@ tail at="many0(filter)(i)"
+    proof {
+        assert(wit(den_filter()));   // instantiates many0's contract with the relation that `filter` satisfies
+        lemma_many0_filter(i, viewed(verif_ret));
+    }
+//@ spec
+    ensures denotes_list(r, i, d_filterlist(i@)), //# C08.filterlist_is_every_following_parenthesised_filter_in_order
+//@end
+
+//@lift name=filtercomp file=src/filter.rs fn=filtercomp
+//@ sub "fn filtercomp(i: &[u8])" => "fn filtercomp<'a>(i: &'a [u8])"
+//@ sub "IResult<&[u8], Tag>" => "IResult<&'a [u8], Tag>"
+//@ ret r
+//@ spec
+    ensures denotes(r, i, d_filtercomp(i@)), //# C08.filtercomp_is_and_or_not_item_in_that_order
+//@end
+
+//@lift name=filtexpr file=src/filter.rs fn=filtexpr
+//@ sub "fn filtexpr(i: &[u8])" => "fn filtexpr<'a>(i: &'a [u8])"
+//@ sub "IResult<&[u8], Tag>" => "IResult<&'a [u8], Tag>"
+//@ ret r
+//@ spec
+    ensures denotes(r, i, d_filtexpr(i@)), //# C08.filter_expression_is_a_parenthesised_filter_or_a_bare_item
+//@end
+
+pub struct Unit0 { }
+//@lift name=parse file=src/filter.rs fn=parse
+//@ sub "input: impl AsRef<[u8]>" => "input: &[u8]"
+//@ sub "input.as_ref()" => "input"
+//@ sub "Result<Tag, ()>" => "core::result::Result<Tag, ()>"
+//@ ret res
+//@ spec
+    ensures
+        match d_filtexpr(input@) {
+            Some(x) => if x.0 == input@.len() { res matches Ok(t) && tree(t) == x.1 } else { res is Err },
+            None => res is Err,
+        }, //# C08.parse_accepts_exactly_a_whole_input_filter_expression_and_returns_its_tree
 //@end
 
 } // verus!
